@@ -420,3 +420,196 @@ pub fn reference_prove<R: rand_core::RngCore + rand_core::CryptoRng>(
     }
     Some(out)
 }
+
+// ------------------------------------------------------------------------------------------------
+// attacks that become possible when a derivation is weakened (used to replay derivation findings of C08 / C13 / C14 concretely)
+
+/// an external RNG stuck at one byte value
+pub struct StuckRng(pub u8);
+impl rand_core::RngCore for StuckRng {
+    fn next_u32(&mut self) -> u32 {
+        u32::from_le_bytes([self.0; 4])
+    }
+    fn next_u64(&mut self) -> u64 {
+        u64::from_le_bytes([self.0; 8])
+    }
+    fn fill_bytes(&mut self, dest: &mut [u8]) {
+        for b in dest.iter_mut() {
+            *b = self.0;
+        }
+    }
+    fn try_fill_bytes(&mut self, dest: &mut [u8]) -> Result<(), rand_core::Error> {
+        self.fill_bytes(dest);
+        Ok(())
+    }
+}
+impl rand_core::CryptoRng for StuckRng {}
+
+fn nonzero<R: rand_core::RngCore>(rng: &mut R) -> Scalar {
+    loop {
+        let mut b = [0u8; 64];
+        rng.fill_bytes(&mut b);
+        let v = Scalar::from_bytes_mod_order_wide(&b);
+        if v != Scalar::ZERO {
+            break v;
+        }
+    }
+}
+
+/// transcript states of one (statement, proof) at the points where the library rebuilds its RNG:
+/// [after the statement, after A, after each (L,R), after (A1,B)], plus the challenges
+struct Stages {
+    states: Vec<Transcript>,
+    y: Scalar,
+}
+fn stages(transcript: &Transcript, st: &RangeStatement<RistrettoPoint>, proof_bytes: &[u8]) -> Option<Stages> {
+    let n = st.generators.bit_length();
+    let m = st.commitments.len();
+    let x = st.generators.extension_degree() as usize;
+    let elems: Vec<[u8; 32]> = proof_bytes[1..].chunks(32).map(|c| c.try_into().unwrap()).collect();
+    let rounds = (elems.len() - x - 5) / 2;
+    let mut t = transcript.clone();
+    t.append_message(b"dom-sep", b"Bulletproofs+ Range Proof");
+    t.append_message(b"H", st.generators.h_base().compress().as_bytes());
+    for g in st.generators.g_bases() {
+        t.append_message(b"G", g.compress().as_bytes());
+    }
+    t.append_u64(b"N", n as u64);
+    t.append_u64(b"T", x as u64);
+    t.append_u64(b"M", m as u64);
+    for c in &st.commitments {
+        t.append_message(b"Ci", c.compress().as_bytes());
+    }
+    for p in &st.minimum_value_promises {
+        t.append_u64(b"vi - minimum_value", p.unwrap_or(0));
+    }
+    let mut states = vec![t.clone()];
+    t.append_message(b"A", &elems[x]);
+    states.push(t.clone());
+    let y = challenge(&mut t, b"y")?;
+    let _z = challenge(&mut t, b"z")?;
+    for j in 0..rounds {
+        t.append_message(b"L", &elems[x + 5 + 2 * j]);
+        t.append_message(b"R", &elems[x + 6 + 2 * j]);
+        states.push(t.clone());
+        challenge(&mut t, b"e")?;
+    }
+    t.append_message(b"A1", &elems[x + 1]);
+    t.append_message(b"B", &elems[x + 2]);
+    states.push(t.clone());
+    Some(Stages { states, y })
+}
+
+/// C08: weights recomputed from PUBLIC data under weakened derivations; for each, the two-member cancelling pair
+/// d1_0[0] += w_1, d1_1[0] -= w_0 is submitted to the library. Returns the names of the derivations for which the library accepts.
+pub fn weight_attack(
+    transcripts: &[Transcript],
+    statements: &[RangeStatement<RistrettoPoint>],
+    proofs: &[Vec<u8>],
+    verify: &dyn Fn(&[Vec<u8>]) -> Vec<bool>,
+) -> Vec<String> {
+    use rand_core::RngCore;
+    let k = proofs.len();
+    let mut hits = Vec::new();
+    if k < 2 {
+        return hits;
+    }
+    let sts: Vec<Stages> = match (0..k).map(|i| stages(&transcripts[i], &statements[i], &proofs[i])).collect::<Option<Vec<_>>>() {
+        Some(s) => s,
+        None => return hits,
+    };
+    let mut variants: Vec<(String, Vec<Scalar>)> = Vec::new();
+    for (name, pick) in [("weights from the RNG state after the statement (responses and proof not absorbed)", 0usize), ("after A", 1), ("after (A1,B), before the responses", usize::MAX)] {
+        let mut wt = Transcript::new(b"Bulletproofs+ verifier weights");
+        for s in &sts {
+            let stt = if pick == usize::MAX { s.states.last().unwrap() } else { &s.states[pick.min(s.states.len() - 1)] };
+            let mut rng = stt.build_rng().finalize(&mut StuckRng(0));
+            wt.append_u64(b"proof", rng.next_u64());
+        }
+        let mut wrng = wt.build_rng().finalize(&mut StuckRng(0));
+        variants.push((name.to_string(), (0..k).map(|_| nonzero(&mut wrng)).collect()));
+    }
+    {
+        let wt = Transcript::new(b"Bulletproofs+ verifier weights");
+        let mut wrng = wt.build_rng().finalize(&mut StuckRng(0));
+        variants.push(("empty weight transcript (no proof bound into the weights)".to_string(), (0..k).map(|_| nonzero(&mut wrng)).collect()));
+    }
+    for (name, w) in variants {
+        let mut forged: Vec<Vec<u8>> = proofs.to_vec();
+        let tweak = |bytes: &mut Vec<u8>, delta: Scalar| {
+            let mut b = [0u8; 32];
+            b.copy_from_slice(&bytes[1..33]);
+            let s = Option::<Scalar>::from(Scalar::from_canonical_bytes(b)).unwrap() + delta;
+            bytes[1..33].copy_from_slice(s.as_bytes());
+        };
+        tweak(&mut forged[0], w[1]);
+        tweak(&mut forged[1], -w[0]);
+        let res = verify(&forged);
+        if res.iter().any(|r| *r) {
+            hits.push(name);
+        }
+    }
+    hits
+}
+
+/// C13/C14: with the external RNG stuck at `ext`, can an observer who knows only public data reproduce the prover's nonces?
+/// (a) alpha from the RNG state after the statement, (b) r, s, d, eta from the state after the last prover message before (A1,B).
+/// `a_blind` = A minus its bit part (recomputed by the caller from the witness). Unseeded statements only.
+pub fn public_nonce_guess(transcript: &Transcript, st: &RangeStatement<RistrettoPoint>, proof_bytes: &[u8], a_blind: &RistrettoPoint, ext: u8) -> Vec<String> {
+    let mut out = Vec::new();
+    if st.seed_nonce.is_some() {
+        return out;
+    }
+    let x = st.generators.extension_degree() as usize;
+    let s = match stages(transcript, st, proof_bytes) {
+        Some(s) => s,
+        None => return out,
+    };
+    let gb = st.generators.g_bases();
+    let h = *st.generators.h_base();
+    // (a)
+    let mut rng = s.states[0].build_rng().finalize(&mut StuckRng(ext));
+    let mut guess = RistrettoPoint::identity();
+    for k in 0..x {
+        guess += gb[k] * nonzero(&mut rng);
+    }
+    if guess == *a_blind {
+        out.push("alpha (the blinding of A) is computable from the public transcript alone".to_string());
+    }
+    // (b)
+    let last = &s.states[s.states.len() - 2];
+    let mut rng = last.build_rng().finalize(&mut StuckRng(ext));
+    let r = nonzero(&mut rng);
+    let sv = nonzero(&mut rng);
+    let _d: Vec<Scalar> = (0..x).map(|_| nonzero(&mut rng)).collect();
+    let eta: Vec<Scalar> = (0..x).map(|_| nonzero(&mut rng)).collect();
+    let mut b_guess = h * (r * s.y * sv);
+    for k in 0..x {
+        b_guess += gb[k] * eta[k];
+    }
+    let elems: Vec<[u8; 32]> = proof_bytes[1..].chunks(32).map(|c| c.try_into().unwrap()).collect();
+    if b_guess.compress().as_bytes() == &elems[x + 2] {
+        out.push("r, s and eta (hence B) are computable from the public transcript alone".to_string());
+    }
+    out
+}
+
+/// C13/C14: for a 1-bit single-commitment proof (no folding) the final masking scalars can be opened from public data and the witness bit:
+/// r = r1 - (bit - z) e,  s = s1 - (bit - 1 + z^2 y + z) e
+pub fn open_final_masks_1bit(transcript: &Transcript, st: &RangeStatement<RistrettoPoint>, proof_bytes: &[u8], offset_bit: u64) -> Option<(Scalar, Scalar)> {
+    let x = st.generators.extension_degree() as usize;
+    if st.generators.bit_length() != 1 || st.commitments.len() != 1 {
+        return None;
+    }
+    let elems: Vec<[u8; 32]> = proof_bytes[1..].chunks(32).map(|c| c.try_into().unwrap()).collect();
+    let mut t = stages(transcript, st, proof_bytes)?.states[1].clone();
+    let y = challenge(&mut t, b"y")?;
+    let z = challenge(&mut t, b"z")?;
+    t.append_message(b"A1", &elems[x + 1]);
+    t.append_message(b"B", &elems[x + 2]);
+    let e = challenge(&mut t, b"e")?;
+    let r1 = Option::<Scalar>::from(Scalar::from_canonical_bytes(elems[x + 3]))?;
+    let s1 = Option::<Scalar>::from(Scalar::from_canonical_bytes(elems[x + 4]))?;
+    let bit = Scalar::from(offset_bit);
+    Some((r1 - (bit - z) * e, s1 - (bit - Scalar::ONE + z * z * y + z) * e))
+}
